@@ -8,7 +8,7 @@ ASSUMPTIONS = [
     "integer-coded tasks are run only for the (optimizer, encoding) pairs of data/baseline_pairs.json (pairs that run at all today; the rest is C06's business)",
     "process-mode runs are judged on their results only (worker-side _init_agent events are not observable without source hooks)",
 ]
-MODULES = ["PvModel.Props.C01", "PvModel.Accept", "PvModel.Props.T01", "PvModel.Props.T05", "PvModel.Props.R13", "PvModel.Props.R02", "PvModel.Props.T13", "PvModel.Props.T14", "PvModel.Props.R14", "PvModel.Props.R11"]
+MODULES = ["PvModel.Props.C01", "PvModel.Accept", "PvModel.Props.T01", "PvModel.Props.T05", "PvModel.Props.R13", "PvModel.Props.R02", "PvModel.Props.T13", "PvModel.Props.T14", "PvModel.Props.R14", "PvModel.Props.R11", "PvModel.Props.R12"]
 
 
 def run(ctx):
